@@ -1,17 +1,19 @@
 (* Properties/C10.v — equivalent model specifications yield equal solutions.                   *)
-(* STATUS (partial): proved on the specification (Spec/Bellman.v) — the facts that make the      *)
-(* Bellman value independent of how the model is written down: the maximum does not depend on    *)
-(* the enumeration order of the choices (any declaration order of the choice variables), the     *)
-(* maximum over a product of choice sets is the nested maximum (choices may be grouped as        *)
-(* restricted/unrestricted/continuous in any way), admissibility depends only on the collection  *)
-(* of restriction functions and not on whether each is a filter or a constraint, an always-true  *)
-(* restriction is irrelevant.  lcm is tied to the specification entry by entry (C01/C05), and the *)
-(* metamorphic families (permutation, renaming, true restriction, filter<->constraint) compare    *)
-(* lcm with lcm on every run.  Renaming invariance is not stated as a theorem (it needs           *)
-(* alpha-equivalence of the expression language); it is covered by the runs only.                 *)
+(* STATUS: proved on the specification (Spec/Bellman.v) — for whole solutions: any permutation of  *)
+(* the declaration order of the functions gives identical tables; any permutation of the          *)
+(* declaration order of the choice variables keeps every entry of every table; more generally two   *)
+(* function lists that resolve identically by name give the same solution.  Underneath: the        *)
+(* maximum depends only on the set of candidate values (enumeration order, grouping into           *)
+(* restricted / unrestricted / continuous choices are irrelevant), admissibility depends only on    *)
+(* the collection of restriction functions and not on whether each is a filter or a constraint,     *)
+(* an always-true restriction is irrelevant.  Not stated as theorems: permutation of the STATES     *)
+(* (it transposes the tables as the layout contract says; C01's layout theorems describe the axes)  *)
+(* and renaming (needs alpha-equivalence of the expression language); both are covered by the       *)
+(* metamorphic families, which compare lcm with lcm on every run, and lcm is tied to the            *)
+(* specification entry by entry by C01/C05.                                                         *)
 From Coq Require Import Permutation.
-From LCM Require Import Base.Prelude Spec.Lang Spec.Bellman.
-From LCM Require Import Proofs.Spec_Algebra Proofs.Spec_Restrictions.
+From LCM Require Import Base.Prelude Base.Arr Spec.Lang Spec.Bellman.
+From LCM Require Import Proofs.Spec_Algebra Proofs.Spec_Restrictions Proofs.C10_Rewrite Proofs.C10_Choices.
 
 Theorem C10_enumeration_order_is_irrelevant : forall l l' : list val,
   Permutation l l' -> veq (vmaxl l) (vmaxl l').
@@ -34,6 +36,62 @@ Theorem C10_true_restriction_is_irrelevant : forall vals : list bool,
   forallb (fun b => b) (true :: vals) = forallb (fun b => b) vals.
 Proof. exact true_restriction_is_irrelevant. Qed.
 Print Assumptions C10_true_restriction_is_irrelevant.
+
+(* ---- whole solutions of the specification ---------------------------------------------------- *)
+(* any permutation of the declaration order of the functions (names unique): identical tables *)
+Theorem C10_function_order_is_irrelevant : forall m m2 p,
+  n_periods m2 = n_periods m -> states m2 = states m -> choices m2 = choices m ->
+  Permutation (functions m) (functions m2) -> NoDup (map fname (functions m)) ->
+  solve_spec m2 p = solve_spec m p.
+Proof. exact function_order_is_irrelevant. Qed.
+Print Assumptions C10_function_order_is_irrelevant.
+
+(* any permutation of the declaration order of the choice variables (names unique), together with *)
+(* any rewriting of the function list that resolves identically by name: every entry of every     *)
+(* table keeps its value (choices are no axes of the solution, so nothing is reordered)           *)
+Theorem C10_choice_order_is_irrelevant : forall m m2 p,
+  same_functions m m2 -> Permutation (choices m) (choices m2) -> NoDup (map fst (choices m)) ->
+  forall t idx, n_periods m2 = n_periods m ->
+    veq (get VUndef (nth t (solve_spec m2 p) (scalar VUndef)) idx)
+        (get VUndef (nth t (solve_spec m p) (scalar VUndef)) idx).
+Proof. exact choice_order_is_irrelevant. Qed.
+Print Assumptions C10_choice_order_is_irrelevant.
+
+(* the maximum depends only on the set of candidate values *)
+Theorem C10_max_depends_on_the_set_of_values : forall l l' : list val,
+  (forall x, In x l -> exists y, In y l' /\ veq x y) ->
+  (forall y, In y l' -> exists x, In x l /\ veq y x) ->
+  veq (vmaxl l) (vmaxl l').
+Proof. exact vmaxl_same_values. Qed.
+Print Assumptions C10_max_depends_on_the_set_of_values.
+
+Local Open Scope string_scope.
+Definition demo_a : model :=
+  mkModel 2 [("w", GLin 0 2 3)] [("c", GLin 0 2 3); ("d", GDisc 2)]
+    [mkUfun "utility" ["c"; "w"; "d"] (EAdd (EVar "c") (EMul (EVar "w") (EVar "d"))) false;
+     mkUfun "next_w" ["w"; "c"] (ESub (EVar "w") (EVar "c")) false;
+     mkUfun "budget_constraint" ["c"; "w"] (ELe (EVar "c") (EVar "w")) false].
+Definition demo_b : model :=
+  mkModel 2 [("w", GLin 0 2 3)] [("d", GDisc 2); ("c", GLin 0 2 3)]
+    [mkUfun "budget_constraint" ["c"; "w"] (ELe (EVar "c") (EVar "w")) false;
+     mkUfun "utility" ["c"; "w"; "d"] (EAdd (EVar "c") (EMul (EVar "w") (EVar "d"))) false;
+     mkUfun "next_w" ["w"; "c"] (ESub (EVar "w") (EVar "c")) false].
+Example C10_rewritings_nonvacuous :
+  Permutation (functions demo_a) (functions demo_b) /\ NoDup (map fname (functions demo_a)) /\
+  Permutation (choices demo_a) (choices demo_b) /\ NoDup (map fst (choices demo_a)) /\
+  map (fun a => map vred (data a)) (solve_spec demo_a (mkParams (1 # 2) [] []))
+  = map (fun a => map vred (data a)) (solve_spec demo_b (mkParams (1 # 2) [] [])) /\
+  Forall (fun tab => Forall (fun v => exists q, v = VFin q) (data tab)) (solve_spec demo_a (mkParams (1 # 2) [] [])).
+Proof.
+  split; [|split; [|split; [|split; [|split]]]].
+  - apply Permutation_sym. apply (Permutation_cons_app [_; _] []). apply Permutation_refl.
+  - repeat constructor; simpl; intuition discriminate.
+  - apply perm_swap.
+  - repeat constructor; simpl; intuition discriminate.
+  - vm_compute. reflexivity.
+  - vm_compute. repeat constructor; eexists; reflexivity.
+Qed.
+Local Close Scope string_scope.
 
 Example C10_nonvacuous :
   veq (vmaxl [VFin 1; VNegInf; VFin (7 # 2)]) (vmaxl [VFin (7 # 2); VFin 1; VNegInf]).
